@@ -205,6 +205,56 @@ class LegalityAutomaton:
         return None
 
 
+class WireSendOrder:
+    """The clauses of C08 that depend only on the order of an endpoint's own frames ON THE WIRE (i.e. after
+    fragmentation, which happens behind the queue): once a frame carrying COMPLETE - or the single response of a
+    request-response - has left on a stream, no further PAYLOAD leaves on it; once an ERROR or a requester's
+    CANCEL has left on a request-response / request-stream stream, nothing leaves on it.  Channels after
+    ERROR/CANCEL are left to the queue-time automaton (which knows the receptions)."""
+
+    def __init__(self, role):
+        self.role = role
+        self.parity = 1 if role == 'client' else 0
+        self.st = {}
+
+    def on_recv(self, f):
+        t, sid = f.get('type'), f.get('sid', 0)
+        if t in REQ and sid and (sid & 1) != self.parity:
+            self.st[sid] = {'kind': KIND[t], 'role': 'responder', 'done': None, 'term': None, 'hist': []}
+
+    def on_send(self, f):
+        from .minicodec import brief
+        t, sid = f.get('type'), f.get('sid', 0)
+        if not sid:
+            return None
+        if t in REQ:
+            self.st[sid] = {'kind': KIND[t], 'role': 'requester', 'done': brief(f) if f.get('complete') else None,
+                            'term': None, 'hist': ['send ' + brief(f)]}
+            return None
+        s = self.st.get(sid)
+        if s is None:
+            return None
+        s['hist'].append('send ' + brief(f))
+        v = None
+        if s['term'] and s['kind'] != 'channel':
+            v = {'clause': 'frame-after-stream-terminated',
+                 'detail': {'frame': brief(f), 'role': self.role, 'judged_at': 'wire order', 'stream_kind': s['kind'],
+                            'stream_role': s['role'], 'terminated_by': 'own %s on the wire' % s['term'],
+                            'stream_history': s['hist'][-10:]}}
+        elif t == 'PAYLOAD' and s['done']:
+            v = {'clause': 'payload-after-own-completion',
+                 'detail': {'frame': brief(f), 'role': self.role, 'judged_at': 'wire order', 'stream_kind': s['kind'],
+                            'stream_role': s['role'], 'completed_by': s['done'], 'stream_history': s['hist'][-10:]}}
+        if t == 'PAYLOAD':
+            if f.get('complete') or (s['role'] == 'responder' and s['kind'] == 'rr' and not f.get('follows')):
+                s['done'] = s['done'] or brief(f)
+        elif t == 'ERROR':
+            s['term'] = 'ERROR'
+        elif t == 'CANCEL' and s['role'] == 'requester':
+            s['term'] = 'CANCEL'
+        return v
+
+
 def judge_endpoint(events, ep, role):
     """events: world.events.  Each frame the endpoint decides to send is judged at the moment it enters the
     endpoint's send path ('queue' events, whole frames) against what the endpoint had sent and received by
@@ -217,13 +267,21 @@ def judge_endpoint(events, ep, role):
     has_queue = any(e['kind'] == 'queue' and e['ep'] == ep for e in events)
     first_wire = True
     setups = 0
+    ws = WireSendOrder(role)
     for e in events:
         if e.get('ep') != ep:
             continue
         k = e['kind']
         if k == 'wire' and e['dir'] == 'recv':
             a.on_recv(e['f'])
+            ws.on_recv(e['f'])
             continue
+        if k == 'wire' and has_queue:
+            wv = ws.on_send(e['f'])
+            if wv is not None:
+                wv['detail']['endpoint'] = ep
+                wv['detail']['at_event'] = e['i']
+                out.append(wv)
         if k == 'wire' and has_queue:
             # wire-order clauses only
             f = e['f']
